@@ -92,8 +92,10 @@ class C03(Property):
     partial_theorems = {
         "edit_survives_editor / _difficulty / _events / _general / _records (and the matching edit_frame_*)":
             "law-dependent: proved for every number codec satisfying CodecLaws (+ IntPrintLaw for AudioLeadIn), shown satisfiable by Lemmas/ToyCodec.lean; CodecLaws is now also a theorem "
-            "for the model's IEEE codec (C02: parseBits_printBits_f64/_f32, printBits_clean, codecLaws_float(32) under the bit-cast hypothesis FloatBitsLaw about Lean's opaque Float); IntPrintLaw "
-            "likewise (C02: printBits_intBits_f64, intPrintLaw_float under FloatOfIntLaw). Not proved: that Rust's Display/FromStr equal the model codec (tested by lib/codecgen.py). edit_survives_metadata / edit_frame_metadata (ten fields, any text that is its own trim without line feed — colons, `//`, brackets, header- and "
+            "for the model's IEEE codec (C02: parseBits_printBits_f64/_f32, printBits_clean) and, since Lean 4.33's Float is a structure over the logical model Float.Model, for the driver's Float / Float32 "
+            "instances with no runtime hypothesis (C02.codecLaws_float_ieee, C02.codecLaws_float32_ieee; the former bit-cast hypotheses are the theorems C02.floatBitsLaw / C02.float32BitsLaw); IntPrintLaw "
+            "likewise (C02: printBits_intBits_f64, C02.intPrintLaw_float_ieee via C02.floatOfIntLaw). So the hypotheses of these theorems are theorems for Float / Float32 and the statements for the "
+            "running instance are obtained by instantiation; no `_float` corollary is stated in the C03 files. Not proved: that Rust's Display/FromStr equal the model codec (tested by lib/codecgen.py). edit_survives_metadata / edit_frame_metadata (ten fields, any text that is its own trim without line feed — colons, `//`, brackets, header- and "
             "version-like text, the empty text; positive ids) and the colours theorems need no law",
         "edit_survives_* / edit_frame_* are section level": "an edit replaces a section record by a representable record; the block the encoder writes for it reads back as exactly that record, and "
             "any observation the edit did not change reads as for the unedited record. edit_survives_records lifts this to the file (encode, bytes, reader, framing, Beatmap decoder) "
@@ -130,9 +132,9 @@ class C03(Property):
             "with that name set); every one of the 41 record fields (`fields_complete`: they are the whole record view) that no edit touches reads as in the UNEDITED round trip "
             "(edit_leaves_field is law-free and holds for every edit; a mode edit also touches special_style). For frame edits (all but mode / slider multiplier / tick rate / breaks) "
             "edits_roundtrip_decoded_rep adds the hit-object / control-point frame (same object view, same finalised hit objects and control points or the same failure) and needs no "
-            "shape hypothesis. REMAINING HYPOTHESES, none of which is about the record sections of the decoded map: (1) codec side — CodecLaws / IntPrintLaw (theorems of the model's "
-            "IEEE codec up to FloatBitsLaw / FloatOfIntLaw about Lean's opaque Float), ConstFacts (closed facts about the decoder's eight constants; evaluated on Float/Float32 by "
-            "#guard, a test), FloatsRep m and Edit.CodecRep e (the codec represents the map's / the edit's float values: `Display` then `FromStr` returns them), in "
+            "shape hypothesis. REMAINING HYPOTHESES, none of which is about the record sections of the decoded map: (1) codec side — CodecLaws / IntPrintLaw (now theorems for the driver's Float / Float32 with no "
+            "hypothesis: C02.codecLaws_float_ieee, C02.codecLaws_float32_ieee, C02.intPrintLaw_float_ieee), ConstFacts (closed facts about the decoder's eight constants; now a theorem for "
+            "Float / Float32, C04.constFacts_float, proved by `decide +kernel` — formerly only a #guard test), FloatsRep m and Edit.CodecRep e (the codec represents the map's / the edit's float values: `Display` then `FromStr` returns them), in "
             "edits_roundtrip_decoded_rep also SliderRt.CoordLaws (MapLaws); (2) NoDoubleSlash — finding F16, a decoded file name can contain `//`: edits_survive_decoded asks it of the EDITED map only "
             "(edits_keep_rep_decoded: a decoded map is representable up to `//` in its names, RepUpToDS, and a name edit installs a clean name — f16_repaired: `AudioFilename: a\\\\b.mp3` "
             "decodes to `a//b.mp3`, violates NoDoubleSlash, and the edit audio_file := `a/b.mp3` is covered); the frame clauses compare with the unedited round trip and ask it of the "
@@ -154,7 +156,7 @@ class C03(Property):
     }
     level_text = ("Lean 4 theorems: for each of the six record sections, editing the section record to any representable value and round-tripping the encoded block gives exactly the "
                   "edited record, and leaves every observation the edit did not touch as it was (metadata also field by field: ten fields, one edited, nine unchanged); lifted to the file "
-                  "for the record fields (edit_survives_records). Sections with floats are proved for every lawful number codec (the model's IEEE codec is proved lawful at the bit level, C02). The frame clause for hit objects and timing points is a theorem too "
+                  "for the record fields (edit_survives_records). Sections with floats are proved for every lawful number codec (the model's IEEE codec is proved lawful at the bit level, and the driver's Float / Float32 instances satisfy CodecLaws / IntPrintLaw with no hypothesis: C02.codecLaws_float_ieee, C02.codecLaws_float32_ieee, C02.intPrintLaw_float_ieee; the C03 statements for that instance follow by instantiation and are not stated separately). The frame clause for hit objects and timing points is a theorem too "
                   "(edit_frame_objects: an edit that leaves mode, slider multiplier, tick rate, breaks, format version, control points and hit objects alone yields the same re-decoded hit "
                   "objects and control points), under the codec laws and the assumption that the unedited map's two list blocks are LF-free record lines; that assumption is discharged for maps "
                   "satisfying RepMap (edit_frame_objects_rep: record sections, collected control points and every hit object representable — via C04's timing_block_shape and "
@@ -171,7 +173,10 @@ class C03(Property):
     trusted_base = [
         "Lean 4.33.0 kernel; axioms ⊆ {propext, Classical.choice, Quot.sound} per #print axioms",
         "hand-written decode + encode models tied to /repo by the `edit` differential of this run",
-        "number codec: CodecLaws proved for the model's printBits/parseBits (C02, Props/C02Codec.lean) up to the runtime hypotheses FloatBitsLaw / FloatOfIntLaw; agreement with Rust's Display/FromStr tested, not proved",
+        "number codec: CodecLaws / IntPrintLaw proved for the model's printBits/parseBits and for the driver's Float / Float32 instances (C02, Props/C02Codec.lean + Props/C02CodecIeee.lean: the former runtime hypotheses "
+        "FloatBitsLaw / FloatOfIntLaw are theorems of Lean 4.33's logical float model Float.Model); ConstFacts Float Float32 proved (C04.constFacts_float); agreement with Rust's Display/FromStr tested, not proved",
+        "a theorem about Float / Float32 is a theorem about Lean's logical model Float.Model; that the compiled @[extern] C operations agree with it is part of Lean's own trusted code base and is compared with Rust "
+        "bit for bit by the codec differential (fop64 / fop32, casts) and by every whole-model request of this run",
     ]
     assumptions = ["edits are restricted to values the format can represent (DESIGN 5.3): trimmed single-line text; file names without `//`, quotes or backslashes and, for the "
                    "background, without commas; numbers within the parse limits and inside the field's clamp; ids and countdown offset positive; colours with alpha 255"]
